@@ -51,25 +51,38 @@ func collectFrames(f *frame, out map[int]*frame) {
 	}
 }
 
-// evmExec = one executed EVM-level behaviour with everything needed to judge it
+// evmExec = one executed EVM-level behaviour (one or more transactions on one StateDB / EVM / block batch)
+// with everything needed to judge it
 type evmExec struct {
 	er       *evmRun
-	root     *frame
+	segs     []*txSeg
 	pre      *Proj
-	callErr  error
+	callErrs []error // per executed transaction
+	callErr  error   // of the last executed transaction
 	panicked interface{}
 	batch    ethdb.Batch
 	ret      []byte
+	execEnd  int // index of the last step that was executed (a transaction that goes off the rails stops the run)
+}
+
+// txHash: hash of the k-th transaction of the behaviour (StateDB.Prepare, TxContext.Hash)
+func txHash(k int) common.Hash {
+	if k == 0 {
+		return thash
+	}
+	return common.BytesToHash([]byte{0xc1, 0x2c, byte(k)})
 }
 
 func execEvm(w *World, steps []Step) (*evmExec, error) {
 	u := w.U
-	root, err := parseFrames(u, steps)
+	segs, err := parseTxs(u, steps)
 	if err != nil {
 		return nil, err
 	}
 	codes := map[int][]byte{}
-	codes[root.codeAddr] = assemble(u, root, codes)
+	for _, sg := range segs {
+		codes[sg.root.codeAddr] = assemble(u, sg.root, codes)
+	}
 	s := w.NewState()
 	r := newResolver(u)
 	for k, c := range codes {
@@ -77,12 +90,12 @@ func execEvm(w *World, steps []Step) (*evmExec, error) {
 		r.codes[k] = c
 	}
 	s.Finalize(true)
-	s.Prepare(thash, 0)
+	s.Prepare(txHash(0), 0)
 	s.ConfigureAccessListChecks(false)
 	batch := w.Raw.NewBatch()
 	batch.SetPending(true)
 	er := &evmRun{w: w, steps: steps, r: r, s: s}
-	evm := vm.NewEVM(blockCtx(), vm.TxContext{Origin: senderAddr, GasPrice: big.NewInt(0), Hash: thash}, s, chainCfg,
+	evm := vm.NewEVM(blockCtx(), vm.TxContext{Origin: senderAddr, GasPrice: big.NewInt(0), Hash: txHash(0)}, s, chainCfg,
 		vm.Config{Debug: true, Tracer: &obsTracer{er}}, batch)
 	er.evm = evm
 	hashO := map[common.Hash]int{}
@@ -92,22 +105,43 @@ func execEvm(w *World, steps []Step) (*evmExec, error) {
 		}
 	}
 	er.sl = &sideLists{evm: evm, batch: batch, raw: w.Raw, hashO: hashO}
-	x := &evmExec{er: er, root: root, batch: batch}
+	x := &evmExec{er: er, segs: segs, batch: batch}
 	x.pre = project(s, r, er.sl)
-	gas := uint64(1) << 60
-	for _, st := range steps {
-		if st.Op == "popabort" && st.V == 4 {
-			gas = 4000000
+	for k, sg := range segs {
+		gas := uint64(1) << 60
+		for _, st := range steps[sg.first : sg.last+1] {
+			if st.Op == "popabort" && st.V == 4 {
+				gas = 4000000
+			}
 		}
+		var callErr error
+		func() {
+			defer func() { x.panicked = recover() }()
+			x.ret, _, _, callErr = evm.Call(vm.AccountRef(senderAddr), addrOf(sg.root.codeAddr), nil, gas, new(big.Int))
+		}()
+		x.callErrs = append(x.callErrs, callErr)
+		x.callErr = callErr
+		x.execEnd = sg.last
+		if x.panicked != nil {
+			break
+		}
+		offRails := len(er.obs) != sg.last // one observation per step before the root frame's end
+		if callErr != nil {
+			evm.UndoCoinbasesDeleted() // core/state_processor.go applyTransaction, failed transaction
+		}
+		er.obs = append(er.obs, project(s, r, er.sl))
+		if offRails || sg.txend < 0 {
+			break
+		}
+		// between two transactions of a block (core/state_processor.go): TransitionDb has handed the ETX cache to the
+		// result, applyTransaction finalises the state; the next transaction is prepared and the EVM reset
+		evm.ETXCache = make([]*types.Transaction, 0)
+		s.Finalize(true)
+		s.Prepare(txHash(k+1), k+1)
+		evm.Reset(vm.TxContext{Origin: senderAddr, GasPrice: big.NewInt(0), Hash: txHash(k + 1)}, s)
+		er.obs = append(er.obs, project(s, r, er.sl))
+		x.execEnd = sg.txend
 	}
-	func() {
-		defer func() { x.panicked = recover() }()
-		x.ret, _, _, x.callErr = evm.Call(vm.AccountRef(senderAddr), addrOf(root.codeAddr), nil, gas, new(big.Int))
-	}()
-	if x.callErr != nil {
-		evm.UndoCoinbasesDeleted() // core/state_processor.go applyTransaction, failed transaction
-	}
-	er.obs = append(er.obs, project(s, r, er.sl))
 	return x, nil
 }
 
@@ -192,9 +226,13 @@ func runEvm(w *World, bi int, steps []Step, wantEvents bool) (fs []Finding, even
 	if err != nil {
 		return nil, nil, 0, err
 	}
-	er, root, pre, callErr, panicked := x.er, x.root, x.pre, x.callErr, x.panicked
+	er, pre, panicked := x.er, x.pre, x.panicked
 	frames := map[int]*frame{}
-	collectFrames(root, frames)
+	segEnd := map[int]int{} // index of a transaction's last step -> transaction number
+	for k, sg := range x.segs {
+		collectFrames(sg.root, frames)
+		segEnd[sg.last] = k
+	}
 
 	mkf := func(i int, kind, class, cause string, accts []int, exp, got interface{}, detail string) Finding {
 		at := steps[i].Op
@@ -205,14 +243,14 @@ func runEvm(w *World, bi int, steps []Step, wantEvents bool) (fs []Finding, even
 			Behaviour: bi, StepIdx: i, Expected: exp, Got: got, Detail: detail, Steps: steps[:i+1]}
 	}
 	if panicked != nil {
-		fs = append(fs, mkf(len(steps)-1, "panic", "panic", "", nil, nil, fmt.Sprint(panicked), "evm.Call panicked"))
+		fs = append(fs, mkf(x.execEnd, "panic", "panic", "", nil, nil, fmt.Sprint(panicked), "evm.Call panicked"))
 		return
 	}
 	for i := range steps {
 		st := steps[i]
-		if i >= len(er.obs) || (i == len(steps)-1 && len(er.obs) != len(steps)) {
-			fs = append(fs, mkf(i, "spec-mismatch", "control-flow", "", nil, len(steps), len(er.obs),
-				fmt.Sprintf("the program produced %d observations for %d steps (a frame ended where the spec does not end it); call error: %v", len(er.obs), len(steps), callErr)))
+		if i >= len(er.obs) || (i == x.execEnd && len(er.obs) != x.execEnd+1) {
+			fs = append(fs, mkf(i, "spec-mismatch", "control-flow", "", nil, x.execEnd+1, len(er.obs),
+				fmt.Sprintf("the program produced %d observations for %d steps (a frame ended where the spec does not end it); call errors: %v", len(er.obs), x.execEnd+1, x.callErrs)))
 			return
 		}
 		p := er.obs[i]
@@ -254,10 +292,10 @@ func runEvm(w *World, bi int, steps []Step, wantEvents bool) (fs []Finding, even
 					fmt.Sprintf("state after the failed %s frame (snapshot %d) differs from the state before it was entered", []string{"", "call", "delegatecall", "create"}[f.kind], st.ID)))
 			}
 		}
-		if i == len(steps)-1 {
+		if k, ok := segEnd[i]; ok && k < len(x.callErrs) {
 			wantErr := st.Op == "popabort"
-			if (callErr != nil) != wantErr {
-				here = append(here, mkf(i, "spec-mismatch", "control-flow", "", nil, wantErr, fmt.Sprint(callErr), "outcome of the top-level call"))
+			if (x.callErrs[k] != nil) != wantErr {
+				here = append(here, mkf(i, "spec-mismatch", "control-flow", "", nil, wantErr, fmt.Sprint(x.callErrs[k]), "outcome of the top-level call"))
 			}
 		}
 		if st.Vis != nil {
